@@ -317,6 +317,85 @@ func runXor(tier string, shard, shards int, rep *SeqReport) {
 			rep.States += cnt
 			rep.family("adjacent "+im.name, cnt)
 		}
+		// the two INPUTS are overlapping views of one buffer (inputs are only read, so any overlap is allowed):
+		// the same start with different lengths, or b starting 1 / 8 bytes inside a; dst separate (exactly n
+		// or longer), or - for the same start - dst identical to a
+		unit++
+		if (unit-1)%shards == shard {
+			var cnt int64
+			lens := []int{0, 1, 2, 7, 8, 9, 16, 17, 33, 64, 65, 100}
+			for _, la := range lens {
+				for _, lb := range lens {
+					for _, shift := range []int{0, 1, 8} {
+						for dmode := 0; dmode < 3; dmode++ {
+							if dmode == 2 && shift != 0 {
+								continue // dst would overlap b inexactly: outside the documented contract
+							}
+							n := la
+							if lb < n {
+								n = lb
+							}
+							buf := make([]byte, 16+shift+la+lb+16)
+							for i := range buf {
+								buf[i] = byte(i*13 + 5)
+							}
+							orig := append([]byte(nil), buf...)
+							a := buf[16 : 16+la]
+							b := buf[16+shift : 16+shift+lb]
+							sep := make([]byte, 8+n+3+8)
+							for i := range sep {
+								sep[i] = byte(0xC0 + i)
+							}
+							sepOrig := append([]byte(nil), sep...)
+							var dst []byte
+							switch dmode {
+							case 0:
+								dst = sep[8 : 8+n : 8+n]
+							case 1:
+								dst = sep[8 : 8+n+3]
+							case 2:
+								dst = a
+							}
+							r, pv := xorSafe(im.f, dst, a, b)
+							cnt++
+							bad := ""
+							if pv != "" {
+								bad = "panicked: " + pv
+							} else if r != n {
+								bad = fmt.Sprintf("returned %d, want %d", r, n)
+							}
+							for i := range buf {
+								want := orig[i]
+								if dmode == 2 && i >= 16 && i < 16+n {
+									want = orig[i] ^ orig[i+shift]
+								}
+								if buf[i] != want && bad == "" {
+									bad = fmt.Sprintf("byte %d of the inputs' buffer is %#x, want %#x", i, buf[i], want)
+								}
+							}
+							for i := range sep {
+								want := sepOrig[i]
+								if dmode != 2 && i >= 8 && i < 8+n {
+									want = orig[16+i-8] ^ orig[16+shift+i-8]
+								}
+								if sep[i] != want && bad == "" {
+									bad = fmt.Sprintf("byte %d of the destination arena (dst starts at 8) is %#x, want %#x", i, sep[i], want)
+								}
+							}
+							if bad != "" {
+								rep.violate("xor overlapping inputs "+im.name, "C20 wrong-result "+im.name,
+									fmt.Sprintf("%s XorBytes: %s", im.name, bad),
+									fmt.Sprintf("inputs in one buffer: len(a)=%d len(b)=%d, b starts %d bytes into a, dst mode %d (0 separate exact, 1 separate longer, 2 identical to a)", la, lb, shift, dmode))
+							}
+						}
+					}
+				}
+			}
+			rep.Evaluations += cnt
+			rep.Transitions += cnt
+			rep.States += cnt
+			rep.family("overlapping-inputs "+im.name, cnt)
+		}
 		// all byte values for n <= 2
 		unit++
 		if (unit-1)%shards == shard {
@@ -355,7 +434,7 @@ func runXor(tier string, shard, shards int, rep *SeqReport) {
 
 func init() {
 	register(&Check{ID: "C20", Seq: runXor,
-		Rule: "full enumeration: len(a), len(b) in 0..72 (thorough 0..136) independently x start offsets mod 8 of a, b, dst (quick {0,1,3,7}, thorough 0..7) x aliasing {none, dst==a, dst==b} x dst exactly n or n+3 long x 3 content patterns, plus all 256x256 byte values for n<=2, plus operands that are adjacent blocks of one buffer (dst identical to one input, the other input touching it or 1/8 bytes away), plus large operands (lengths p-1, p, p+1, 1.5p for every power of two p = 256..65536, equal and unequal, both aliasings, two alignments, two content patterns); on the implementation this toolchain builds (xor_generic.go) and on xor_old.go compiled with its build constraint lifted; every byte of the three guarded arenas is compared",
+		Rule: "full enumeration: len(a), len(b) in 0..72 (thorough 0..136) independently x start offsets mod 8 of a, b, dst (quick {0,1,3,7}, thorough 0..7) x aliasing {none, dst==a, dst==b} x dst exactly n or n+3 long x 3 content patterns, plus all 256x256 byte values for n<=2, plus operands that are adjacent blocks of one buffer (dst identical to one input, the other input touching it or 1/8 bytes away), plus inputs that are overlapping views of one buffer (same start with different lengths, or b starting 1/8 bytes into a), plus large operands (lengths p-1, p, p+1, 1.5p for every power of two p = 256..65536, equal and unequal, both aliasings, two alignments, two content patterns); on the implementation this toolchain builds (xor_generic.go) and on xor_old.go compiled with its build constraint lifted; every byte of the three guarded arenas is compared",
 		Assumptions: []string{"xor_arm.go/.s cannot execute on amd64 and no emulator is installed: the ARM assembly is not covered",
 			"contents come from 6 patterns incl. zero and all-ones words (XOR is bitwise-independent) plus all byte pairs for n<=2"}})
 }
